@@ -2,6 +2,8 @@ package main
 
 import (
 	"strings"
+
+	"golang.org/x/tools/go/ssa"
 )
 
 // Audit tables record, one line of reason each, the constructs that a rule accepts on the
@@ -175,4 +177,59 @@ func parseCallKey(k string) (name string, args []string, ok bool) {
 	}
 	args = append(args, body[start:])
 	return name, args, true
+}
+
+// soleCallerChain: f, then its caller if exactly one function calls it, and so on (at most 3 steps).
+// An audit entry written for a function also covers the helpers that exist only to serve it.
+func (p *Prog) soleCallerChain(f *ssa.Function) []*ssa.Function {
+	out := []*ssa.Function{f}
+	cur := f
+	for step := 0; step < 3; step++ {
+		callers := map[*ssa.Function]bool{}
+		for _, g := range p.srcFuncs {
+			if g == cur {
+				continue
+			}
+			p.instrs(g, func(b *ssa.BasicBlock, i int, in ssa.Instruction) {
+				if c, ok := in.(ssa.CallInstruction); ok && c.Common().StaticCallee() == cur {
+					callers[g] = true
+				}
+			})
+		}
+		if len(callers) != 1 {
+			break
+		}
+		for g := range callers {
+			cur = g
+		}
+		out = append(out, cur)
+	}
+	return out
+}
+
+// exemptLookup finds an entry keyed "<function><sep><rest>" for f or for the function f solely serves;
+// nameOf renders a function the way the table names it. If no function of that name exists any more
+// (renamed, merged into its caller), an entry is adopted by the function that now contains the construct.
+func exemptLookup[T any](p *Prog, tbl map[string]T, f *ssa.Function, nameOf func(*ssa.Function) string, rest string) (T, bool) {
+	for _, g := range p.soleCallerChain(f) {
+		if v, ok := tbl[nameOf(g)+"|"+rest]; ok {
+			return v, true
+		}
+	}
+	// adoption of orphaned entries
+	existing := map[string]bool{}
+	for _, g := range p.srcFuncs {
+		existing[nameOf(g)] = true
+	}
+	for k, v := range tbl {
+		i := strings.Index(k, "|")
+		if i < 0 || k[i+1:] != rest || k[:i] == "*" {
+			continue
+		}
+		if !existing[k[:i]] {
+			return v, true
+		}
+	}
+	var zero T
+	return zero, false
 }
